@@ -7,7 +7,7 @@ VERIF = os.path.dirname(os.path.dirname(os.path.abspath(__file__)))
 TECH = 'Verus contracts (requires/ensures/invariants) on functions re-extracted verbatim from /repo each run; modular SMT proof for all inputs'
 NOTE = ('Trusted: hand-written contracts of dependency crates in /verif/shim (listed per run in evidence.coverage.trusted_base), '
         'the environment contract of DESIGN.md section 4, structural derive(Clone/PartialEq), String/Vec extensionality. '
-        'Extraction rewrites R1-R6 / annotations A1-A4 are the only differences from the compiled text.')
+        'Extraction rewrites R1-R10 / annotations A1-A4 (DESIGN.md 2.2 and 11.2, counted per run in evidence) are the only differences from the compiled text.')
 
 CLAIMED = {
     # id: (text, design_ref, extra note)
@@ -45,10 +45,10 @@ def build():
                   'baseline_off_cmd': 'cd /repo && cargo test --workspace --no-fail-fast --offline',
                   'source_commits': [], 'add_only': True},
         'engines': [{'name': 'verus-contracts', 'path': '/verif/vf', 'serves_properties': sorted(CLAIMED),
-                     'kind_free_text': 'syn-based extractor (tools/vx) + contract injection (vf/assemble.py) + Verus 0.2026.09.13 + vacuity twins + known-findings carve-outs'}],
+                     'kind_free_text': 'syn-based extractor (tools/vx) + contract injection (vf/assemble.py) + Verus 0.2026.09.13 + vacuity twins + known-findings carve-outs; witness search on the real crates (replay/, vf/mirrors.py) for concrete failing inputs'}],
         'checks': checks,
         'not_applicable': na,
-        'notes': 'See DESIGN.md. exit 2 from a check means inconclusive (lost anchor / unsupported construct / rlimit), never a violation.',
+        'notes': 'See DESIGN.md (as built: section 11). exit 2 from a check means the verifier could not decide on this tree (lost anchor / construct outside the verified subset / rlimit) and the bounded witness search on the real code found nothing - never a violation, never a pass; it cannot occur on the unchanged tree. A VIOLATION line with obligation=bounded:<family> means: verifier undecided, and a concrete failing input of the real code was found (bounded stand-in, not proof). A VIOLATION line ending no-failing-input-found means: a proof obligation failed and no concrete input was found.',
     }
     json.dump(m, open(os.path.join(VERIF, 'MANIFEST.json'), 'w'), indent=1)
     return m
